@@ -117,6 +117,8 @@ def model_skeletons() -> dict[str, dict]:
             "ResV1": obj({"id": INT, "label": STR}, ["id"], additionalProperties=False),
             "ResV0": obj({"id": DATE, "label": STR}, ["id"], additionalProperties=False),
             "UnionsD": obj({"res": {"oneOf": [ref("ResV2"), ref("ResV0"), ref("ResV1")]}, "hist": arr({"oneOf": [ref("ResV2"), ref("ResV1")]})}, ["res"], additionalProperties=False),
+            # one schema that uses two union keywords at once (member numbering runs across them)
+            "UnionsE": obj({"both-kw": {"anyOf": [ref("Cat")], "oneOf": [ref("Dog"), INT]}, "optBoth": {"anyOf": [DATE, INT], "oneOf": [arr(UUID), BOOL]}}, ["both-kw"], additionalProperties=False),
             "UnionListsA": obj({"pets": arr({"oneOf": [ref("Cat"), ref("Dog")]})}, ["pets"], additionalProperties=False),
             "UnionListsB": obj({"list-or-int": {"oneOf": [arr(INT), INT]}, "optMixed": arr({"oneOf": [INT, STR]})}, additionalProperties=False),
         }
